@@ -16,8 +16,9 @@ def _jobs():
 
 PLAN = dict(
     level="exploration",
-    rule="every child process first races the process-wide singletons (34 goroutines, two per each of 17 first-use "
-         "operations - key generation, signing, encryption, key exchange, certificate creation and verification, AEADs, on "
+    rule="every child process first races the process-wide singletons (36 goroutines, two per each of 18 first-use "
+         "operations - key generation, signing, encryption, key exchange, certificate creation and verification, a technically constrained PKI created and its permitted and violating "
+         "leaves verified with every VerifyOptions shape, AEADs, on "
          "sm2p256v1, on a NIST curve and on SM9 - as their very first library calls), then runs rounds: cold shared objects "
          "(SM2 private/public key, SM2-scheme keys on NIST P-256 [P-521 in the purego build] and P-384 incl. a shared "
          "*ecdsa.PrivateKey, ECDH key, SM9 sign/encrypt master and user keys in BOTH representations the API hands out - decoded "
@@ -26,11 +27,19 @@ PLAN = dict(
          "call takes the representation its seed selects -, 8 G1 and 8 G2 group elements still in projective form (through the "
          "verif hook; 2 in purego), SM4 block + shared GCM "
          "(12- and 16-byte nonces) and CCM AEADs, certificate pools filled lazily from PEM and from parsed certificates with "
-         "a constraint callback), 4/8/16 goroutines released from a barrier, each executing a seeded list of 3-8 of 117 "
+         "a constraint callback; the round PKI has two same-subject roots with intermediates and a third, technically "
+         "constrained branch whose names carry a label drawn per PKI (so state keyed by names is fresh in every round): root "
+         "and intermediate with DNS, e-mail (host and exact mailbox), URI and IP name constraints, permitted and excluded, with "
+         "and without leading period, critical; EKU-restricted intermediate; path length limits; the intermediate cross-signed "
+         "by the first root (two candidate chains); seven leaves with SANs of every kind, one permitted and one violating "
+         "leaf per constraint kind and for the EKU set), 4/8/16 goroutines released from a barrier, each executing a seeded list of 3-8 of 117 "
          "operations with scripted randomness, then the same lists sequentially on a second cold object set; results must "
          "be identical, round-trip laws of composite operations must hold, every goroutine must finish (bounded progress), "
          "and the race detector must be silent. Operations: first and steady use of the shared objects (sign, verify, "
-         "encrypt, decrypt, wrap/unwrap, envelopes, seal/open, chain verification); DERIVATIONS from a shared parent "
+         "encrypt, decrypt, wrap/unwrap, envelopes, seal/open, chain verification - plain and name-constrained leaves against the shared pools, their clones and the "
+         "parsed pool, with VerifyOptions of eleven shapes (DNSName exact / wildcard / mixed case / IP / no match, KeyUsages "
+         "sets, CurrentTime before, in and after validity, MaxConstraintComparisions), accepted chains and refusals both being "
+         "results -); DERIVATIONS from a shared parent "
          "followed by use of the derived object (GenerateUserKey of both SM9 master kinds, PublicKey()/Public()/"
          "MasterPublic() accessors, ECDH()/PublicKeyToECDH conversions, key objects constructed from the parent's fields or "
          "encodings, CertPool.Clone and Clone+AddCert, every mode/AEAD/MAC constructor over the shared block); key "
@@ -43,7 +52,7 @@ PLAN = dict(
          "its value after the sequential replay. Then 3 (purego 2) first-use BURST cases per process: many cheap trials of one "
          "object kind (projective points; sm2 key from NewPrivateKey/GenerateKey/FromECPrivateKey/parsed SEC 1; ecdh key from "
          "NewPrivateKey/GenerateKey/sm2 ECDH(); sm9 sign and encrypt master generated or decoded with user key derived or "
-         "decoded; sm4 block; pool from PEM or parsed) - a new cold object per trial, 2-4 goroutines released by a spinning "
+         "decoded; sm4 block; pool from PEM or parsed, plain or with a constrained root and intermediate of its own) - a new cold object per trial, 2-4 goroutines released by a spinning "
          "barrier making its first calls at the same instant, the same calls sequentially on a twin, results and object value "
          "compared. "
          "Distinct = class keys (configuration | round kind and goroutines / simultaneous first calls observed / completion "
@@ -59,7 +68,8 @@ PLAN = dict(
 
 CLAIM = dict(
     text="Runtime monitoring under the Go race detector: cold shared key objects (SM2 on sm2p256v1 and, through the library's "
-         "math/big path, on NIST curves; ECDH; SM9 master and user keys), ciphers, AEADs and certificate pools are used for the "
+         "math/big path, on NIST curves; ECDH; SM9 master and user keys), ciphers, AEADs and certificate pools (incl. chains with name constraints of every kind, EKU-restricted and "
+         "cross-signed CAs, leaves with SANs of every kind, eleven VerifyOptions shapes) are used for the "
          "first time concurrently (so every sync.Once / lazy cache is raced at initialisation), in fresh processes for the "
          "process-wide singletons; objects derived from a shared parent while the parent is first used (user keys, public keys "
          "from accessors, ECDH conversions, re-constructed keys, pool clones, modes/AEADs/MACs over the shared block) are then "
